@@ -4,7 +4,7 @@
    Spec  = Kernels/Spec.v.  `= Done spec` includes: no out-of-bounds access, no fuel exhaustion. *)
 From Coq Require Import Sorted.
 From SA Require Import Base.Prelude Kernels.Intersect Kernels.Linear Kernels.Spec
-  Kernels.Intersect_Correct Kernels.Linear_Proofs.
+  Kernels.Intersect_Correct Kernels.Linear_Proofs Kernels.Adjacent_Correct.
 Open Scope N_scope.
 
 (* masked values non-decreasing (what "sorted under a mask of contiguous high bits" gives) *)
@@ -93,5 +93,29 @@ Example C12_nonvacuous :
   intersect_drop l r m = Done ([2; 3], [1; 2]) /\ intersect_keep l r m = Done ([2; 3; 4], [1; 2; 3]).
 Proof. cbv zeta. repeat split; try (vm_compute; reflexivity); vm_compute; repeat constructor; discriminate. Qed.
 
-(* NOT yet proved here (the check still compares model, spec and implementation on these):
-   adjacent = adjacent_spec and the fused kernel = (intersect_drop_spec modulo right occurrence, adjacent_spec). *)
+(* adjacency: first-occurrence pairs whose masked values differ by one unit of the mask's lowest bit.
+   Any non-zero 64-bit mask (contiguity is not needed: every masked value is a multiple of lowbit mask). *)
+Theorem C12_adjacent : forall l r mask,
+  msorted_idx l mask -> msorted_idx r mask ->
+  N.of_nat (length l) < 2 ^ 62 -> N.of_nat (length r) < 2 ^ 62 ->
+  mask <> 0 -> mask < W64 ->
+  adjacent l r mask = Done (adjacent_spec l r mask (lowbit mask)).
+Proof. exact adjacent_correct. Qed.
+Print Assumptions C12_adjacent.
+
+(* the fused kernel returns both answers at once; for a common value repeated in the right input the
+   intersection may report ANY of its right occurrences; needs the no-overflow proviso of the property *)
+Theorem C12_intersect_with_adjacents : forall l r mask,
+  msorted_idx l mask -> msorted_idx r mask ->
+  N.of_nat (length l) < 2 ^ 62 -> N.of_nat (length r) < 2 ^ 62 ->
+  mask <> 0 -> mask < W64 ->
+  (forall a, In a l -> N.land a mask + lowbit mask < W64) ->
+  exists o, intersect_with_adjacents l r mask = Done o /\
+    ia_lo o = fst (intersect_drop_spec l r mask) /\
+    length (ia_ro o) = length (ia_lo o) /\
+    (forall k a b, nth_error (ia_lo o) k = Some a -> nth_error (ia_ro o) k = Some b ->
+        b < N.of_nat (length r) /\
+        N.land (nth (N.to_nat b) r 0) mask = N.land (nth (N.to_nat a) l 0) mask) /\
+    (ia_alo o, ia_aro o) = adjacent_spec l r mask (lowbit mask).
+Proof. exact intersect_with_adjacents_correct. Qed.
+Print Assumptions C12_intersect_with_adjacents.
